@@ -203,7 +203,8 @@ def plan_of(case):
     ops = []
     for op in case.get("hist", ["Export"]):
         if op == "Add":
-            ops.append({"op": "Add", "cmd": conc_cmd({"t": r.choice(list(CMD_NAMES)), "dl": r.choice([0, 3, 16, 100, 240, 256, 300])}, r)})
+            ops.append({"op": "Add", "cmd": conc_cmd({"t": r.choice(list(CMD_NAMES)), "dl": r.choice([0, 3, 16, 100, 240, 256, 300])}, r),
+                        "at": r.choice([-1, -1, 0, 1])})  # add_command / insert_command
         else:
             ops.append({"op": "Export"})
     return {"case": case, "conc": c, "ops": ops}
@@ -221,8 +222,16 @@ def execute(plan, tid, keep_bytes=False):
     out, k = [], 0
     for op in plan["ops"]:
         if op["op"] == "Add":
-            c["cmds"] = c["cmds"] + [op["cmd"]]
-            sb.sb_commands.add_command(real_cmd(op["cmd"]))
+            at = op.get("at", -1)
+            if at == -1 or at > len(c["cmds"]):
+                c["cmds"] = c["cmds"] + [op["cmd"]]
+                if at == -1:
+                    sb.sb_commands.add_command(real_cmd(op["cmd"]))
+                else:
+                    sb.sb_commands.insert_command(-1, real_cmd(op["cmd"]))
+            else:
+                c["cmds"] = c["cmds"][:at] + [op["cmd"]] + c["cmds"][at:]
+                sb.sb_commands.insert_command(at, real_cmd(op["cmd"]))
             continue
         k += 1
         t = {"id": f"{tid}.{k}", "plan": plan, "case": case, "k": k, "inp": spec_inp(c), "rom": rom_env(c)}
